@@ -4,7 +4,7 @@
    point text   Weierstrass / Montgomery:  inf | x,y      (coordinates lower-case hex)
                 over F_p2:                 inf | x0:x1,y0:y1
                 Edwards:                   x,y            (identity is 0,1)
-   commands     PARAMS c | GEN c | ADD c P Q | SUB c P Q | DBL c P | NEG c P | EQ c P Q | ISID c P
+   commands     PARAMS c | GEN c | ADD c P Q | SUB c P Q | DBL c P | NEG c P | EQ c P Q | ISID c P | ORDN c P
                 ONC c x,y | MUL c k lebytes P | MSM c k;lebytes;P ... | MSMN (naive sum only) | EDMONT x,y
                 F field op x [y]      field = <curve>.p | <curve>.n | g2.p2 *)
 open Model
@@ -46,9 +46,10 @@ type grp = {
   mul : Big_int_Z.big_int -> Big_int_Z.big_int list -> string -> string;   (* naive, window *)
   msm : (Big_int_Z.big_int * Big_int_Z.big_int list * string) list -> string; (* naive, code *)
   msmn : (Big_int_Z.big_int * Big_int_Z.big_int list * string) list -> string; (* naive only *)
+  ordn : string -> string;                                                 (* n*P = identity ? *)
 }
 
-let mk parse show ~params ~gen ~add ~sub ~dbl ~neg ~eq ~isid ~onc ~mul ~smw ~msm ~msmcode : grp = {
+let mk parse show ~params ~gen ~add ~sub ~dbl ~neg ~eq ~isid ~onc ~mul ~smw ~msm ~msmcode ~n : grp = {
   params; gen = (fun () -> show gen);
   add = (fun p q -> show (add (parse p) (parse q)));
   sub = (fun p q -> show (sub (parse p) (parse q)));
@@ -63,6 +64,7 @@ let mk parse show ~params ~gen ~add ~sub ~dbl ~neg ~eq ~isid ~onc ~mul ~smw ~msm
     and bs = List.map (fun (_, b, _) -> b) l
     and ps = List.map (fun (_, _, p) -> parse p) l in
     show (msm ks ps) ^ " " ^ (match msmcode ps bs with None -> "PANIC" | Some r -> show r));
+  ordn = (fun p -> b2s (isid (mul n (parse p))));
   msmn = (fun l ->
     let ks = List.map (fun (k, _, _) -> k) l
     and ps = List.map (fun (_, _, p) -> parse p) l in
@@ -75,19 +77,19 @@ let mk_w (c : wparams) : grp =
   mk (parse_opt parse_fp) (show_opt show_fp)
     ~params:(fun () -> String.concat " " (List.map hz [c.wp_p; c.wp_a; c.wp_b; c.wp_gx; c.wp_gy; c.wp_n; c.wp_h]))
     ~gen:(w_gen c) ~add:(w_add c) ~sub:(w_sub c) ~dbl:(w_double c) ~neg:(w_neg c) ~eq:(w_eqb c)
-    ~isid:is_none ~onc:(w_on_curve c) ~mul:(w_mul c) ~smw:(w_smw c) ~msm:(w_msm c) ~msmcode:(w_msm_code c)
+    ~isid:is_none ~onc:(w_on_curve c) ~mul:(w_mul c) ~smw:(w_smw c) ~msm:(w_msm c) ~msmcode:(w_msm_code c) ~n:c.wp_n
 
 let mk_w2 (c : w2params) : grp =
   mk (parse_opt parse_fp2) (show_opt show_fp2)
     ~params:(fun () -> String.concat " " [hz c.w2_p; show_fp2 c.w2_a; show_fp2 c.w2_b; show_fp2 c.w2_gx; show_fp2 c.w2_gy; hz c.w2_n; hz c.w2_h])
     ~gen:(w2_gen c) ~add:(w2_add c) ~sub:(w2_sub c) ~dbl:(w2_double c) ~neg:(w2_neg c) ~eq:(w2_eqb c)
-    ~isid:is_none ~onc:(w2_on_curve c) ~mul:(w2_mul c) ~smw:(w2_smw c) ~msm:(w2_msm c) ~msmcode:(w2_msm_code c)
+    ~isid:is_none ~onc:(w2_on_curve c) ~mul:(w2_mul c) ~smw:(w2_smw c) ~msm:(w2_msm c) ~msmcode:(w2_msm_code c) ~n:c.w2_n
 
 let mk_e (c : eparams) : grp =
   mk parse_pair show_pair
     ~params:(fun () -> String.concat " " (List.map hz [c.ep_p; c.ep_a; c.ep_d; c.ep_gx; c.ep_gy; c.ep_n; c.ep_h]))
     ~gen:(e_gen c) ~add:(e_add c) ~sub:(e_sub c) ~dbl:(e_double c) ~neg:(e_neg c) ~eq:(e_eqb c)
-    ~isid:(e_is_zero c) ~onc:(e_on_curve c) ~mul:(e_mul c) ~smw:(e_smw c) ~msm:(e_msm c) ~msmcode:(e_msm_code c)
+    ~isid:(e_is_zero c) ~onc:(e_on_curve c) ~mul:(e_mul c) ~smw:(e_smw c) ~msm:(e_msm c) ~msmcode:(e_msm_code c) ~n:c.ep_n
 
 let mk_m (c : mparams) : grp =
   let sub p q = m_add c p (m_neg c q) in
@@ -100,7 +102,7 @@ let mk_m (c : mparams) : grp =
     ~eq:(fun p q -> p = q || (match p, q with
         | Some (a, b), Some (a', b') -> Big_int_Z.eq_big_int a a' && Big_int_Z.eq_big_int b b'
         | None, None -> true | _ -> false))
-    ~isid:is_none ~onc:(m_on_curve c) ~mul:(m_mul c) ~smw:(m_smw c) ~msm ~msmcode:(fun _ _ -> None)
+    ~isid:is_none ~onc:(m_on_curve c) ~mul:(m_mul c) ~smw:(m_smw c) ~msm ~msmcode:(fun _ _ -> None) ~n:c.mp_n
 
 let groups : (string, grp) Hashtbl.t = Hashtbl.create 16
 let () =
@@ -171,6 +173,7 @@ let () =
         | ["NEG"; c; p] -> (grp c).neg p
         | ["EQ"; c; p; q] -> (grp c).eq p q
         | ["ISID"; c; p] -> (grp c).isid p
+        | ["ORDN"; c; p] -> (grp c).ordn p
         | ["ONC"; c; p] -> (grp c).onc p
         | ["MUL"; c; k; b; p] -> (grp c).mul (zh k) (bytes_of_hex b) p
         | "MSM" :: c :: terms -> (grp c).msm (List.map parse_term terms)
